@@ -204,6 +204,21 @@ Definition db_get_live (now : N) (d : db) (k : bytes) (v : N) : gres :=
   | o => o
   end.
 
+(** Txn.Get additionally treats [Value == nil && Meta == 0] as absent.  A table
+    returns an empty value as a nil slice, a memtable as an empty non-nil one. *)
+Definition in_mem (s : state) (k : bytes) (v : N) : bool :=
+  match first_some (mem_get k v (st_mem s) :: map (fun m => mem_get k v (snd m)) (rev (st_imms s))) with
+  | Some _ => true
+  | None => false
+  end.
+Definition txn_get (now : N) (d : db) (k : bytes) (ts : N) : gres :=
+  match db_get d k ts with
+  | GVal r =>
+      if (blen (r_val r) =? 0) && (r_meta r =? 0) && negb (in_mem (d_lsm d) k ts) then GNone
+      else if dead now r then GNone else GVal r
+  | o => o
+  end.
+
 (** * GC: valueLog.rewrite *)
 
 Definition ptr_leb (fid off : N) (p : vptr) : bool :=
@@ -222,7 +237,8 @@ Definition gc_process (now : N) (s : state) (bk fid : N) (v : vrec) : decision :
     let p := decode_vptr (r_val entry) in
     if negb (p_bucket p =? bk) then DSkip
     else if negb (ptr_leb fid (vr_off v) p) then DSkip
-    else DMove {| r_key := r_key e; r_ver := r_ver e; r_val := r_val e; r_meta := 0; r_exp := r_exp e; r_seq := r_seq e |}.
+    else DMove {| r_key := r_key e; r_ver := r_ver e; r_val := r_val e; r_meta := N.ldiff (r_meta e) bit_vptr;
+                  r_exp := r_exp e; r_seq := r_seq e |}.
 
 Fixpoint gc_collect (now : N) (s : state) (bk fid : N) (vs : list vrec) : option (list rec) :=
   match vs with
